@@ -9,7 +9,8 @@ from . import common as cm
 from . import geom
 from .common import FIELD, MESH, REGION
 from .c01 import each, _single_return
-from .c08 import _find_transpose, _setname_map
+from .c08 import _find_transpose, _setname_map, d7_vtk_reader
+from ..lib import cond_equiv, cond_implies, path_term
 
 FLOOR = 21
 ANCHORS = [
@@ -20,6 +21,11 @@ ANCHORS = [
 ]   # functions whose code the property is anchored in (mutation analysis, evidence)
 VTK = "io.vtk._FieldIO_VTK."
 
+AUTOMUT_TRIAGE = [
+    (r"to_vtk$", r"`(if|elif) self\.nvdim == [13]:`", "which array a viewer shows first (SetActiveVectors/Scalars) is not part of the statement"),
+    (r"_from_vtk_legacy$", r"cell\.append\(1e-9\)", "the spacing assumed for a single point is a free choice (documented as 1 nm), no file content contradicts it"),
+]
+
 
 def run(chk):
     repo = chk.repo
@@ -28,6 +34,7 @@ def run(chk):
     d3_reader(chk, repo)
     d4_representations(chk, repo)
     d5_legacy(chk, repo)
+    d6_legacy_details(chk, repo)
     chk.trust("VTK rectilinear grids number cells with x fastest, then y, then z; numpy_to_vtk keeps row order; GetBounds returns "
               "(xmin, xmax, ymin, ymax, zmin, zmax); GetDimensions returns point counts")
     chk.assume("what the VTK writers put on disk and what a foreign reader finds, and the ten-digit text precision, are not decided")
@@ -190,6 +197,33 @@ def d3_reader(chk, repo):
     chk.ob("io.vtk::special-array-names-agree", special == {"field", "valid", "norm"} and special <= written, "C16.D3",
            f"reader treats {sorted(special)} as non-label arrays; writer names {sorted(written)}", v.f)
     okv = a.get("vdims") is not None and a.get("valid") is not None
+    # which arrays are data, validity, labels (rule instances shared with C08.D7)
+    d7_vtk_reader(chk, repo, rule="C16.D3")
+    for call, st in v.calls():
+        if isinstance(call.func, ast.Attribute) and call.func.attr == "append":
+            loop = [p_ for p_, f_ in v.cfg.enclosing(st) if isinstance(p_, ast.For)]
+            if not loop:
+                continue
+            arg = v.term(call.args[0], at=st)
+            c_ = decode_call(v.ctx, arg)
+            if not (c_ and c_[0] == ".GetArrayName"):
+                continue
+            pt = path_term(v, st)
+            wants = v.spec("a != 'field' and a != 'valid' and a not in ['norm']", env={"a": arg})
+            wants2 = v.spec("a != 'field' and a != 'valid' and a != 'norm'", env={"a": arg})
+            chk.ob("io.vtk._from_vtk::labels-are-the-remaining-arrays", cond_equiv(v, pt, wants) or cond_equiv(v, pt, wants2), "C16.D3",
+                   f"an array name becomes a label under {v.show(pt)[:200]}; expected: it is none of field, valid, norm", v.f, st)
+    # reader kind follows the file header
+    xml = find_assign(v, lambda t_, s_: (v.ctx.head_of(t_) or ("", ""))[:2] == ("cmp", "in") and any(is_str(v.ctx, x, "xml") for x in v.ctx.args_of(t_)))
+    okx = False
+    if xml is not None:
+        for st in v.stmts():
+            if isinstance(st, ast.If) and v.eq(v.ev.term(st.test, at=st), xml[2]):
+                b = [v.show(v.term(s2.value, at=s2)) for s2 in st.body if isinstance(s2, ast.Assign)]
+                e = [v.show(v.term(s2.value, at=s2)) for s2 in st.orelse if isinstance(s2, ast.Assign)]
+                okx = any("vtkXMLRectilinearGridReader" in x for x in b) and any("vtkRectilinearGridReader" in x and "XML" not in x for x in e)
+    chk.ob("io.vtk._from_vtk::xml-reader-iff-xml-file", okx, "C16.D3",
+           "the XML reader must be used exactly for files whose first line contains 'xml', the legacy-format reader otherwise", v.f)
     chk.ob("io.vtk._from_vtk::passes-labels-and-validity", okv, "C16.D3", "vdims and valid must be passed to the constructor", v.f, r)
     oksc = False
     for st in v.stmts():
@@ -281,3 +315,115 @@ def d5_legacy(chk, repo):
     sites = l.ctor_sites(FIELD)
     chk.ob("io.vtk._from_vtk_legacy::field-construction", bool(sites) and all("nvdim" in s.args and not s.unbound_kw for s in sites),
            "C16.D5", "the legacy reader must build Field(mesh, nvdim=dim)", l.f)
+
+
+def d6_legacy_details(chk, repo):
+    chk.rule("C16.D6", "legacy point-data files: VECTORS means three components with data right after the marker, otherwise one "
+                       "component with one LOOKUP_TABLE line to skip; per axis the point count is the second word of the "
+                       "*_COORDINATES line and the coordinates are on the next line; points are cell centres, so the region starts "
+                       "half a cell before the first point and spans n cells; data line k goes to the k-th mesh index")
+    l = FV(repo, VTK + "_from_vtk_legacy", self_type=FIELD)
+    # format table
+    top = None
+    for st in l.body:
+        if isinstance(st, ast.If) and st.orelse:
+            ct = l.ev.term(st.test, at=st)
+            if (l.ctx.head_of(ct) or ("", ""))[:2] in (("cmp", "in"), ("cmp", "notin")) and \
+                    any(is_str(l.ctx, x, "VECTORS") for x in l.ctx.args_of(ct)):
+                top = st
+                negated = l.ctx.head_of(ct)[1] == "notin"
+    chk.require(top is not None, "_from_vtk_legacy: the VECTORS test vanished")
+
+    def consts(block):
+        out = {}
+        for s2 in block:
+            if isinstance(s2, ast.Assign) and isinstance(s2.value, ast.Constant) and isinstance(s2.targets[0], ast.Name):
+                out[s2.targets[0].id] = s2.value.value
+        return out
+    cb, ce = consts(top.body), consts(top.orelse)
+    if negated:
+        cb, ce = ce, cb
+    okt = sorted(map(repr, cb.values())) == sorted(map(repr, [3, "VECTORS", 0])) and \
+        sorted(map(repr, ce.values())) == sorted(map(repr, [1, "SCALARS", 1])) and set(cb) == set(ce)
+    chk.ob("io.vtk._from_vtk_legacy::format-table", okt, "C16.D6",
+           f"VECTORS branch sets {cb}, other branch {ce}; expected (3, 'VECTORS', skip 0) and (1, 'SCALARS', skip 1)", l.f, top)
+    roles = {}
+    for name in cb:
+        pair = (cb[name], ce.get(name))
+        if pair == (3, 1):
+            roles["dim"] = name
+        elif pair == (0, 1):
+            roles["skip"] = name
+        elif pair == ("VECTORS", "SCALARS"):
+            roles["marker"] = name
+    # metadata appends
+    apps = []
+    for call, st in l.calls():
+        if isinstance(call.func, ast.Attribute) and call.func.attr == "append" and isinstance(call.func.value, ast.Name) and call.args:
+            apps.append((call.func.value.id, l.term(call.args[0], at=st), st))
+    lines = find_assign(l, lambda t_, s_: (decode_call(l.ctx, t_) or ("",))[0] == ".split" and is_str(l.ctx, decode_call(l.ctx, t_)[1][1], "\n"))
+    chk.require(lines is not None and len(apps) >= 4, "_from_vtk_legacy: line list or metadata appends vanished")
+    L = lines[2]
+    line = l.ctx.mk(("iter", ()), (L,))
+    idx = l.ctx.mk(("index",), (L,))
+    coords = l.spec("list(map(float, L[i + 1].split()))", env={"L": L, "i": idx})
+    want = {"count": l.spec("int(x.split()[1])", env={"x": line}), "first": l.spec("c[0]", env={"c": coords}),
+            "step": l.spec("c[1] - c[0]", env={"c": coords})}
+    got = {}
+    for nm, t_, st in apps:
+        for k_, w_ in want.items():
+            if l.eq(t_, w_):
+                got[k_] = (nm, st)
+    chk.ob("io.vtk._from_vtk_legacy::metadata-values", set(got) == {"count", "first", "step"}, "C16.D6",
+           f"found {sorted(got)} among the appended values {[l.show(t_)[:60] for nm, t_, st in apps]}; expected the point count "
+           "(second word of the marker line), the first coordinate and the spacing (second minus first) of the NEXT line", l.f)
+    if set(got) == {"count", "first", "step"}:
+        st = got["step"][1]
+        pt = path_term(l, st)
+        member = [p_ for p_, f_ in l.cfg.enclosing(st) if isinstance(p_, ast.If)]
+        mts = [l.ev.term(m_.test, at=m_) for m_ in member]
+        mts = [t_ for t_ in mts if (l.ctx.head_of(t_) or ("", ""))[:2] == ("cmp", "in")]
+        okc = bool(mts) and cond_equiv(l, pt, l.ev._bool("and", [mts[-1], l.spec("len(c) > 1", env={"c": coords})]),
+                                       [l.spec("len(c)", env={"c": coords})])
+        chk.ob("io.vtk._from_vtk_legacy::spacing-needs-two-points", okc, "C16.D6",
+               f"the spacing is taken under {l.show(pt)[:160]}; expected: the line belongs to a coordinate marker and has at least two "
+               "coordinates", l.f, st)
+        ms = l.ctor_sites(MESH)
+        chk.require(ms, "_from_vtk_legacy: no Mesh construction")
+        sm = ms[0]
+        N = local_term(l, got["count"][0], sm.stmt)
+        O = local_term(l, got["first"][0], sm.stmt)
+        C = local_term(l, got["step"][0], sm.stmt)
+        reg = decode_new(repo, l.ctx, sm.args.get("region")) if sm.args.get("region") is not None else None
+        want_p1 = l.spec("np.subtract(o, np.multiply(c, 0.5))", env={"o": O, "c": C})
+        want_p2 = l.spec("np.add(p, np.multiply(n, c))", env={"p": want_p1, "n": N, "c": C})
+        okg = bool(reg and reg[0] == REGION and l.eq(reg[1].get("p1"), want_p1) and l.eq(reg[1].get("p2"), want_p2)) and \
+            sm.args.get("n") is not None and l.eq(sm.args["n"], N)
+        chk.ob("io.vtk._from_vtk_legacy::region-from-cell-centres", okg, "C16.D6",
+               "expected Mesh(region=Region(p1=first - spacing/2, p2=p1 + n*spacing), n=n)", l.f, sm.call)
+    # data block
+    for st in l.stmts():
+        if isinstance(st, ast.For):
+            c = decode_call(l.ctx, l.term(st.iter, at=st))
+            if c and c[0] == "zip" and len(c[1]) == 2 and (l.ctx.head_of(c[1][0]) or ("", ""))[:2] == ("prop", "indices"):
+                sl = c[1][1]
+                start = find_assign(l, lambda t_, s_: l.eq(t_, idx) and any(isinstance(p_, ast.If) for p_, f_ in l.cfg.enclosing(s_)))
+                oks = False
+                if start is not None and "skip" in roles:
+                    S = local_term(l, start[1], st)
+                    K = local_term(l, roles["skip"], st)
+                    oks = l.eq(sl, l.spec("L[s + k + 1:]", env={"L": L, "s": S, "k": K}))
+                    par = l.cfg.parent.get(id(start[0]))
+                    if oks and par and isinstance(par[0], ast.If) and "marker" in roles:
+                        oks = l.eq(l.ev.term(par[0].test, at=par[0]),
+                                   l.spec("x.startswith(m)", env={"x": line, "m": local_term(l, roles["marker"], par[0])}))
+                chk.ob("io.vtk._from_vtk_legacy::data-block-start", oks, "C16.D6",
+                       f"data lines are {l.show(sl)[:160]}; expected the lines after the marker line plus the skipped table line", l.f, st)
+                for s2 in walk_stmts(st.body):
+                    if isinstance(s2, ast.Assign) and isinstance(s2.targets[0], ast.Subscript):
+                        dl = l.ctx.mk(("iter", ()), (sl,))
+                        okd = cond_equiv(l, path_term(l, s2), l.spec("not x[0].isalpha()", env={"x": dl})) and \
+                            l.eq(l.term(s2.value, at=s2), l.spec("list(map(float, x.split()))", env={"x": dl}))
+                        chk.ob("io.vtk._from_vtk_legacy::data-lines", okd, "C16.D6",
+                               f"`{l.src(s2)}` under {l.show(path_term(l, s2))[:120]}; expected: numeric lines (not starting with a "
+                               "letter) parsed as floats", l.f, s2)
